@@ -50,6 +50,8 @@ CATALOGUE = [
     ('c02_net_sum', 'C02', S,
      "            element.torque = element.driving_torque - element.load_torque",
      "            element.torque = element.driving_torque + element.load_torque"),
+    ('c02_joint_keeps_old_efficiency', 'C02', R,
+     "    if isinstance(slave, GearBase | WormGear):\n        slave.master_gear_efficiency = 1\n", ""),
     # ---- C03
     ('c03_ratio_squared', 'C03', S,
      "            self.__powertrain_inertia_moment *= element.master_gear_ratio\n",
